@@ -102,6 +102,15 @@ func c20Run(cs c20Case) (fs []F) {
 		if noStorage && (b.Len() != 0 || b.Length() != 0) {
 			fail("shape", "not empty after appending an empty buffer")
 		}
+		if noStorage {
+			if h := hdr(b); h != wantH {
+				fail("shape", "a buffer without storage changed shape when an empty buffer of capacity %d frames was appended: %+v, was %+v", cs.N, h, wantH)
+			}
+			guard("AppendSample after Append(empty)", func() { b.AppendSample(dyn.Tok(t, 7)) })
+			if b.Len() != 0 {
+				fail("shape", "after appending an empty buffer of capacity %d frames the buffer without storage accepts samples (Len %d)", cs.N, b.Len())
+			}
+		}
 	case "write", "read":
 		sl := sentSl(t2, cs.N)
 		ret := -1
@@ -271,7 +280,7 @@ func init() {
 					if noStorage {
 						add("appendsample", nil)
 					}
-					for n := 0; n <= 2; n++ {
+					for _, n := range []int{0, 1, 2, 600, 5000} {
 						add("append", func(cs *c20Case) { cs.N = n })
 					}
 					// reads, writes and conversions: every zero-length buffer (incl. capacity > 0)
@@ -297,7 +306,7 @@ func init() {
 			c.Sample(cases[3])
 			c.Sample(cases[len(cases)/3])
 			c.Sample(cases[len(cases)-1])
-			c.Set("rule", "ChannelLength(n,0) for n in 0..5; every allocator with Channels, Length, Capacity in 0..3, L<=K and at least one of them 0 (incl. the zero value) x 13 element types, plus 9- and 65-channel and 1100/5000-frame-capacity degenerate shapes for 4 types, x {shape methods, Slice(0,0), Channel(c) shape methods, pool Get/AppendSample/Put twice, AppendSample x3 (no storage), Append of an empty buffer of capacity 0..2, Write/Read/WriteStriped/ReadStriped with slices of length 0..3, every conversion into and out of it (all 169 instantiations) against an equally degenerate and a normal 2-frame partner}; slice element types for reads/writes: all 13 at the zero allocator, same type + int8 + float64 elsewhere; oracle: no panic, lengths/capacities 0 where stated, every returned count 0, caller slices and partner buffers untouched; all cases distinct and non-trivial")
+			c.Set("rule", "ChannelLength(n,0) for n in 0..5; every allocator with Channels, Length, Capacity in 0..3, L<=K and at least one of them 0 (incl. the zero value) x 13 element types, plus 9- and 65-channel and 1100/5000-frame-capacity degenerate shapes for 4 types, x {shape methods, Slice(0,0), Channel(c) shape methods, pool Get/AppendSample/Put twice, AppendSample x3 (no storage), Append of an empty buffer of capacity 0, 1, 2, 600, 5000 frames, Write/Read/WriteStriped/ReadStriped with slices of length 0..3, every conversion into and out of it (all 169 instantiations) against an equally degenerate and a normal 2-frame partner}; slice element types for reads/writes: all 13 at the zero allocator, same type + int8 + float64 elsewhere; oracle: no panic, lengths/capacities 0 where stated, every returned count 0, caller slices and partner buffers untouched; all cases distinct and non-trivial")
 			c.Assume("Sample/SetSample have no valid index on these buffers and are not called")
 		},
 		RunCase: func(c *core.Ctx, raw json.RawMessage) []F { return c20Run(decode[c20Case](raw)) },
